@@ -168,7 +168,7 @@ def _unit_subms(As):
     emb = Emb(ctx.base, 1_000)
     u = Unit()
     for a in As:
-        for b in _G["sets"]["N4n2"]:
+        for b, fb in itertools.product(_G["sets"]["N4n2"], (0, 400)):
             A = [emb.ev(s, d, {"label": f"a{i}"}) for i, (s, d) in enumerate(a)]
             for e in A:
                 if e.duration.total_seconds() > 0:
@@ -177,6 +177,13 @@ def _unit_subms(As):
             if any(A[i].timestamp + A[i].duration > A[i + 1].timestamp for i in range(len(A) - 1)):
                 continue
             B = mk(emb, b, "b")
+            # ... and list-two events may end inside a millisecond as well (+400 us): an end less than 1 ms
+            # inside a list-one event is still inside it (seeded: "before / after" tested with a 1 ms resolution)
+            for e in B:
+                if fb and e.duration.total_seconds() > 0:
+                    e.duration = e.duration + timedelta(microseconds=fb)
+            if any(B[i].timestamp + B[i].duration > B[i + 1].timestamp for i in range(len(B) - 1)):
+                continue
             t0 = _time.process_time()
             try:
                 out = union_no_overlap(A, B)
@@ -188,7 +195,7 @@ def _unit_subms(As):
             u.transitions += 1
             u.states += 1
             u.nontrivial += 1
-            case = {"kind": "subms", "a": [list(x) for x in a], "b": [list(x) for x in b]}
+            case = {"kind": "subms", "a": [list(x) for x in a], "b": [list(x) for x in b], "fb": fb}
             if dt > 0.5:
                 u.violation("union_no_overlap:sub-ms-end:pathologically-slow", f"union_no_overlap({list(a)} with +500us ends, {list(b)}) took {dt:.2f} s", case, size=len(a) + len(b))
             a_out = [(S.us_of(e.timestamp), S.dus_of(e.duration)) for e in out if e.data["label"].startswith("a")]
@@ -201,7 +208,7 @@ def _unit_subms(As):
             # (seeded: remainder duration computed from the unfloored cut -> the tail lost up to 1 ms).
             cover = sorted((S.us_of(e.timestamp), S.us_of(e.timestamp) + S.dus_of(e.duration)) for e in A)
             for j, (s2, d2) in enumerate(b):
-                lo, hi = S.us_of(emb.t(s2)), S.us_of(emb.t(s2 + d2))
+                lo, hi = S.us_of(emb.t(s2)), S.us_of(emb.t(s2 + d2)) + (fb if d2 > 0 else 0)
                 want = []
                 x = lo
                 for c0, c1 in cover:
@@ -216,6 +223,19 @@ def _unit_subms(As):
                     continue  # zero-length list-two events are covered by the main lattice
                 have = sorted((S.us_of(e.timestamp), S.us_of(e.timestamp) + S.dus_of(e.duration)) for e in out if e.data["label"] == f"b{j}")
                 have = [h for h in have if h[1] > h[0]]
+
+                def coalesce(ivs):
+                    # pieces that touch are one stretch of time (a zero-length list-one event covers nothing:
+                    # whether the list-two event is cut there or not is the same set of instants)
+                    out_ = []
+                    for x0, x1 in ivs:
+                        if out_ and out_[-1][1] == x0:
+                            out_[-1] = (out_[-1][0], x1)
+                        else:
+                            out_.append((x0, x1))
+                    return out_
+
+                want, have = coalesce(want), coalesce(have)
                 ok = len(have) == len(want)
                 if ok:
                     for (w0, w1), (h0, h1) in zip(want, have):
